@@ -58,9 +58,23 @@ func secMatrix(seed uint64) {
 		{"nothing-enabled", nil, true, false},
 		{"aes128-signenc-only", []secPair{{"Aes128_Sha256_RsaOaep", 3}}, true, false},
 		{"mixed-no-auth-mode", []secPair{{"None", 1}, {"Basic256Sha256", 3}}, true, true},
+		// several secured policies with DIFFERENT mode sets: policy and mode must be enabled as a pair, so the crossed
+		// pairs (Basic256Sha256/Sign, Aes128/SignAndEncrypt, ...) must be refused
+		{"crossed-two-policies", []secPair{{"Basic256Sha256", 3}, {"Aes128_Sha256_RsaOaep", 2}}, true, false},
+		{"crossed-three-policies", []secPair{{"None", 1}, {"Basic128Rsa15", 2}, {"Aes256_Sha256_RsaPss", 3}, {"Basic256Sha256", 2}}, true, false},
 	}
 	clients := []secPair{{"None", 1}, {"Basic256Sha256", 2}, {"Basic256Sha256", 3}, {"Basic128Rsa15", 3}, {"Aes128_Sha256_RsaOaep", 3}, {"Aes256_Sha256_RsaPss", 2}}
+	// the whole cross product of the secured policies and modes for the crossed configurations
+	crossClients := []secPair{{"None", 1}}
+	for _, pol := range []string{"Basic256Sha256", "Aes128_Sha256_RsaOaep", "Basic128Rsa15", "Aes256_Sha256_RsaPss", "Basic256"} {
+		crossClients = append(crossClients, secPair{pol, 2}, secPair{pol, 3})
+	}
+	allClients := clients
 	for _, c := range cfgs {
+		clients := allClients
+		if strings.HasPrefix(c.name, "crossed") {
+			clients = crossClients
+		}
 		var opts []server.Option
 		for _, p := range c.pairs {
 			opts = append(opts, server.EnableSecurity(p.Policy, p.Mode))
